@@ -48,6 +48,11 @@ type Run struct {
 	counters   map[string]int64
 	distinct   map[string]map[string]struct{}
 	Exhaustive bool
+	// Confirm, if set, re-executes a violation's replay object and returns the
+	// signatures it produced. A new violation is reported only if it
+	// reproduces (twice); otherwise it is a harness determinism error.
+	Confirm        func(replay interface{}) []string
+	nonReproducing int
 }
 
 func NewRun(prop, tier, level string) *Run {
@@ -129,6 +134,26 @@ func (r *Run) Violation(signature string, detail interface{}) {
 		return
 	}
 	r.vioSeen[signature] = true
+	if m, ok := detail.(map[string]interface{}); ok && r.Confirm != nil && m["replay"] != nil {
+		r.mu.Unlock()
+		reproduced := 0
+		for i := 0; i < 2; i++ {
+			for _, s := range r.Confirm(m["replay"]) {
+				if s == signature {
+					reproduced++
+					break
+				}
+			}
+		}
+		r.mu.Lock()
+		if reproduced < 2 {
+			r.nonReproducing++
+			r.counters["harness_errors"]++
+			fmt.Printf("HARNESS ERROR: violation %q did not reproduce when replayed (%d of 2); not reported as a violation\n", signature, reproduced)
+			return
+		}
+		m["reproduced"] = "replayed twice in a fresh worker, same signature both times"
+	}
 	r.violations++
 	body, _ := json.MarshalIndent(map[string]interface{}{"property": r.Prop, "signature": signature, "tier": r.Tier, "detail": detail}, "", " ")
 	h := sha256.Sum256([]byte(r.Prop + "/" + signature))
